@@ -1,5 +1,6 @@
 import NeumannModel.Common.Proto
 import NeumannModel.Locks.Model
+import NeumannModel.Locks.CoordModel
 /- Line-protocol driver for the lock-table / wait-for-graph model (C12). Stateful. -/
 open Neumann Neumann.Proto Neumann.Locks
 
@@ -8,11 +9,12 @@ structure DrvState where
   g : WaitGraph
   cfg : DetectorCfg
   lockCount : Option (List (Nat × Nat))
+  co : Coord
 
 def drvInit : DrvState :=
   { t := LockTable.empty 3, g := WaitGraph.empty 0,
     cfg := { enabled := true, policy := .youngest, maxCycleLength := 100, cascadeDepth := 3 },
-    lockCount := none }
+    lockCount := none, co := Coord.init 3 100 }
 
 def sortByKey {β : Type} (m : List (Nat × β)) : List (Nat × β) :=
   m.mergeSort (fun a b => a.1 ≤ b.1)
@@ -83,6 +85,64 @@ def showCycles (cs : List (List Nat)) : String :=
 def orderMatches (g : WaitGraph) (adj : Adj) : Bool :=
   let canon := fun (m : List (Nat × List Nat)) => (sortByKey m).map fun p => (p.1, sortNats p.2)
   canon g.edges == canon adj
+
+def phaseName : Phase → String
+  | .preparing => "preparing" | .prepared => "prepared" | .committing => "committing" | .aborting => "aborting"
+
+def showVote (v : Nat × Option Nat) : String :=
+  match v.2 with
+  | some h => s!"{v.1}y{h}"
+  | none => s!"{v.1}n"
+
+def pendingImg (m : List (Nat × PTx)) : String :=
+  ",".intercalate ((sortByKey m).map fun e =>
+    s!"{e.1}:{phaseName e.2.phase}:{dotted e.2.shards}:{".".intercalate ((sortByKey e.2.votes).map showVote)}:{if e.2.doomed then 1 else 0}")
+
+def coordImg (c : Coord) : String :=
+  tableImg c.t ++ " | " ++ graphImg c.g ++ " | P " ++ pendingImg c.pending ++
+  " | I " ++ natMapImg c.inflight ++ ";U " ++ dotted (sortNats c.unrecorded)
+
+def showCoRes : CoRes → String
+  | .unit => "unit"
+  | .began tx => s!"began {tx}"
+  | .refused => "refused"
+  | .yes h => s!"yes {h}"
+  | .conflict ks => s!"conflict {showNats ks}"
+  | .notFound => "notfound"
+  | .wrongPhase => "wrongphase"
+  | .duplicate => "duplicate"
+  | .recorded none => "recorded -"
+  | .recorded (some ph) => s!"recorded {phaseName ph}"
+  | .ok => "ok"
+  | .ids txs => s!"ids {showNats (sortNats txs)}"
+  | .stats a b c d => s!"stats {a} {b} {c} {d}"
+  | .count n => s!"count {n}"
+
+def parseCoOp : List String → Option CoOp
+  | ["cbegin", sh] => (parseDotted sh).map .begin
+  | ["cprep", tx, keys] => match tx.toNat?, parseNats keys with
+      | some tx, some keys => some (.prepare tx keys)
+      | _, _ => none
+  | ["cdeliver", h, sh] => match h.toNat?, sh.toNat? with
+      | some h, some sh => some (.deliver h sh)
+      | _, _ => none
+  | ["cvoteno", tx, sh] => match tx.toNat?, sh.toNat? with
+      | some tx, some sh => some (.voteNo tx sh)
+      | _, _ => none
+  | ["ccommit", tx] => tx.toNat?.map .commit
+  | ["cabort", tx] => tx.toNat?.map .abort
+  | ["ccompletecommit", tx] => tx.toNat?.map .completeCommit
+  | ["ccompleteabort", tx] => tx.toNat?.map .completeAbort
+  | ["cforce", tx, b] => match tx.toNat?, b.toNat? with
+      | some tx, some b => some (.forceResolve tx (b != 0))
+      | _, _ => none
+  | ["ctimeouts"] => some .cleanupTimeouts
+  | ["crecover"] => some .recover
+  | ["csweep", ps] => ps.toNat?.map .sweep
+  | ["cadv", d] => d.toNat?.map .advance
+  | ["csaveload"] => some .saveLoad
+  | ["cdoom", tx] => tx.toNat?.map .doom
+  | _ => none
 
 def lockCountFn (s : DrvState) : Option (Nat → Nat) :=
   s.lockCount.map fun tbl => fun tx => (aGet tbl tx).getD 0
@@ -181,6 +241,29 @@ def locksStep (s : DrvState) (line : String) : DrvState × String :=
         let r := detect cfg g (lc.map fun tbl => fun tx => (aGet tbl tx).getD 0) adj
         (s, if r.isEmpty then "-" else ";".intercalate (r.map fun p => s!"{dotted p.1}>{p.2}"))
       | _, _, _, _, _, _, _, _ => bad
+  | ["gclear"] => let g' := clearGraph s.g; ({ s with g := g' }, "ok | " ++ graphImg g')
+  | ["gstale", now, ttl] => match now.toNat?, ttl.toNat? with
+      | some now, some ttl => let (g', n) := cleanupStaleEdges s.g now ttl
+                              ({ s with g := g' }, s!"{n} | " ++ graphImg g')
+      | _, _ => bad
+  | ["gwcc", w, h] => match w.toNat?, h.toNat? with
+      | some w, some h => (s, toString (wouldCreateCycle s.g.edges w h))
+      | _, _ => bad
+  -- stateless: would_create_cycle on an explicit adjacency
+  | ["xwcc", w, h, order] => match w.toNat?, h.toNat?, parseSetMap order with
+      | some w, some h, some adj => (s, toString (wouldCreateCycle adj w h))
+      | _, _, _ => bad
+  -- stateless sweep of an explicit lock table: `release_orphaned_locks`
+  | ["cinit", to, mc] => match to.toNat?, mc.toNat? with
+      | some to, some mc => ({ s with co := Coord.init to mc }, "ok")
+      | _, _ => bad
+  | "cbegin" :: _ | "cprep" :: _ | "cdeliver" :: _ | "cvoteno" :: _ | "ccommit" :: _ | "cabort" :: _
+  | "ccompletecommit" :: _ | "ccompleteabort" :: _ | "cforce" :: _ | "ctimeouts" :: _ | "crecover" :: _
+  | "csweep" :: _ | "cadv" :: _ | "csaveload" :: _ | "cdoom" :: _ =>
+      match parseCoOp (words line) with
+      | some op => let (c', r) := costep s.co op
+                   ({ s with co := c' }, showCoRes r ++ " | " ++ coordImg c')
+      | none => bad
   | ["gvictim", cyc] => match parseDotted cyc with
       | some c => (s, toString (selectVictim s.cfg.policy s.g (lockCountFn s) c))
       | none => bad
